@@ -143,6 +143,7 @@ def exportable(c, case):
     def strs(xs):
         return [x for x in xs if isinstance(x, str)]
     return {'base': {'requires': strs(c.get('requires', [])), 'ensures': strs(c.get('ensures', [])),
+                     'modifies': c.get('modifies') if c.get('modifies') == [] else None,
                      'raises': {k: v for k, v in (c.get('raises') or {}).items() if isinstance(v, str)}},
             'case': {'label': case.get('label', ''), 'requires': strs(case.get('requires', [])),
                      'ensures': strs(case.get('ensures', [])),
@@ -178,6 +179,7 @@ def export_all(path):
                           'raises': {k: v for k, v in (case.get('raises') or {}).items() if isinstance(v, str)}})
         out[q] = {'params': js(c.get('params', {})), 'cases': cases,
                   'base': {'requires': strs(c.get('requires', [])), 'ensures': strs(c.get('ensures', [])),
+                           'modifies': c.get('modifies') if c.get('modifies') == [] else None,
                            'raises': {k: v for k, v in (c.get('raises') or {}).items() if isinstance(v, str)}}}
     with open(path, 'w') as f:
         json.dump(out, f)
